@@ -42,7 +42,9 @@ ZEROS = (dbits(0.0), dbits(-0.0))
 
 # ---------------------------------------------------------------- pools
 _WORDS = ["Alpha", "Brave", "Città", "Dämmerung", "Écoute", "Fjörd", "Große", "日本語", "Ирис", "𝄞clef", "x", "Zulu",
-          "multi word title", "with'quote", "semi;colon", "per%cent", "under_score", "tab\there", "new\nline"]
+          "multi word title", "with'quote", "semi;colon", "per%cent", "under_score", "tab\there", "new\nline",
+          # numeric-looking text: must come back as the same text whatever the column affinity
+          "007", "1e3", "0x10", "-0", " 12 ", "3.0", "NULL", "12abc"]
 
 
 def rstring(rng, tag, used, allow_nul=False):
@@ -53,6 +55,9 @@ def rstring(rng, tag, used, allow_nul=False):
             b = b""
         elif r < 0.16:
             b = bytes([rng.randrange(0x21, 0x7f)])
+        elif r < 0.12 + 0.08:
+            b = rng.choice(["007", "1e3", "0x10", "-0", " 12 ", "3.0", "NULL", "12abc", "1e400", "9223372036854775808"]).encode() + \
+                (b"" if rng.random() < 0.5 else str(rng.randrange(10)).encode())
         elif r < 0.6:
             b = (rng.choice(_WORDS) + " " + tag + str(rng.randrange(1000))).encode()
         elif r < 0.7:
